@@ -29,7 +29,7 @@ TRUSTED = ["lark LALR engine + contextual lexer are re-modelled by a hand-writte
 ASSUMPTIONS = ["trees contain no node object twice (Tree precondition)"]
 BUDGET = {"quick": 240, "thorough": 2400}
 
-FIELDS = ["arg", "left", "right", "c", "items", "pair", "z", "a", "child", "root", "nofield"]
+FIELDS = ["arg", "left", "right", "c", "items", "pair", "z", "a", "child", "root", "nofield", "argExpr", "lk", "rk"]
 CLASSES = [c.__name__ for c in zoo.ALL_CLASSES] + ["ASTNode"]
 
 
@@ -120,7 +120,7 @@ def gen_derived(rng, root):
         if f is not None and rng.random() < 0.6:
             toks += ["@", f if rng.random() < 0.93 else rng.choice(FIELDS)]
         if rng.random() < 0.5 and (i is not None or rng.random() < 0.2):
-            d = i if (i is not None and rng.random() < 0.9) else rng.choice([0, 1, 10])
+            d = i if (i is not None and rng.random() < 0.9) else rng.choice([0, 1, 10, 257, 258])
             toks += ["["] + list(str(d)) + ["]"]
         if k == len(idxs) - 1 or rng.random() < 0.7:
             mro = [c.__name__ for c in type(n).__mro__ if c.__name__ in CLASSES]
@@ -189,6 +189,13 @@ def cases(rng: random.Random, tier: str):
     for _ in range(n_trees):
         g = zoo.Gen(rng, origins=False, share=0.0)
         root = g.tree(rng.choice([1, 3, 6, 10, 20, 40]))
+        glue = rng.random() < 0.08
+        if glue:
+            root = zoo.Glue(arg=zoo.Un(root), argExpr=zoo.Opt(zoo.Leaf(v=1)) if rng.random() < 0.5 else zoo.Un(zoo.Un(zoo.Leaf(v=2))))
+        long_tuple = rng.random() < 0.03
+        if long_tuple:
+            # a tuple with more than 257 elements (indices beyond CPython's small-int cache)
+            root = zoo.Tup(tuple(zoo.Leaf(v=i % 3) if i % 7 else zoo.Un(zoo.Leaf(v=1)) for i in range(rng.randint(259, 300))))
         if rng.random() < 0.35:
             # content-identical (and origin-identical) twins under content-identical parents, at the same
             # field and index: distinct objects that are `==` pairwise
@@ -199,6 +206,16 @@ def cases(rng: random.Random, tier: str):
         env = [zoo.class_table(), orgs.sexp(), [A("tree"), tree]]
         nodes = [root] + [c for (c, p, f, i) in zoo.positions(root)]
         desc = zoo.show(root)
-        for _ in range(per_tree):
+        for _ in range(3 if long_tuple else per_tree):
             text = gen_derived(rng, root) if rng.random() < 0.7 else gen_xpath(rng)
             yield one(rng, root, env, toks, nodes, text, desc)
+        if long_tuple:
+            n_items = len(root.items)
+            for i in (256, 257, 258, n_items - 1):
+                yield one(rng, root, env, toks, nodes, f"/Tup/@items[{i}]" + rng.choice(["Expr", "Leaf", "Un", "ASTNode"]), desc)
+        if glue:
+            # texts that differ only by whitespace between a field name and a class name mean different things
+            texts = [f"//@arg Expr/{c}" for c in ("Leaf", "Un", "Expr")] + [f"//@argExpr/{c}" for c in ("Leaf", "Un", "Expr")]
+            rng.shuffle(texts)
+            for text in texts[:4]:
+                yield one(rng, root, env, toks, nodes, text, desc)
